@@ -28,7 +28,7 @@ ASSUME_COMMON = [
 # property -> (engine module, level, quick runs, thorough runs, quick budget s, thorough budget s)
 REGISTRY = {
     "C02": ("vsim.engines.crashsim", "fault_enumeration", 1000, 12000, 100, 900),
-    "C09": ("vsim.engines.crashsim", "fault_enumeration", 600, 8000, 110, 900),
+    "C09": ("vsim.engines.crashsim", "fault_enumeration", 500, 8000, 110, 900),
     "C10": ("vsim.engines.crashsim", "fault_enumeration", 300, 3000, 120, 1200),
     "C01": ("vsim.engines.rfsim", "exploration", 3000, 60000, 100, 900),
     "C04": ("vsim.engines.rfsim", "exploration", 3000, 60000, 100, 900),
